@@ -201,32 +201,71 @@ def _parse_setting(tree):
         w = [ast.unparse(st) for st in ast.walk(init) if isinstance(st, ast.Assign)
              and ast.unparse(st.targets[0]) == 'self.__parseRaising']
         rows.append(('parser-mode-init', 'cssutils/parse.py:CSSParser.__init__', ' ; '.join(w)))
+    # what every PUBLIC entry point does, in order, with the private helpers and the other methods it calls on `self`
+    # followed (so that moving code into a helper does not change the row): `open` / `readUrl` / `parse`, and
+    # `setting[…]` around whatever runs inside `with self.__parseSetting():`
+    def events(fn, depth, active):
+        out = []
+
+        def calls(node):
+            for sub in ast.walk(node):
+                if isinstance(sub, ast.Call):
+                    f = sub.func
+                    nm = f.attr if isinstance(f, ast.Attribute) else (f.id if isinstance(f, ast.Name) else None)
+                    if nm == 'open':
+                        out.append('open')
+                    elif nm == '_readUrl':
+                        out.append('readUrl')
+                    elif nm in ('CSSStyleSheet', 'CSSStyleDeclaration', '_setCssTextWithEncodingOverride', '_setCssText'):
+                        out.append('parse')
+                    elif isinstance(f, ast.Attribute) and isinstance(f.value, ast.Name) and f.value.id == 'self' \
+                            and nm in fns and nm != '__parseSetting' and nm not in active and depth < 4:
+                        out.extend(events(fns[nm], depth + 1, active | {nm}))
+
+        def block(stmts):
+            for st in stmts:
+                if isinstance(st, ast.Expr) and isinstance(st.value, ast.Constant):
+                    continue
+                if isinstance(st, ast.With):
+                    setting = any(ast.unparse(i.context_expr) == 'self.__parseSetting()' for i in st.items)
+                    for i in st.items:
+                        if not setting:
+                            calls(i.context_expr)
+                    if setting:
+                        out.append('setting[')
+                        block(st.body)
+                        out.append(']')
+                    else:
+                        block(st.body)
+                elif isinstance(st, (ast.If, ast.For, ast.While)):
+                    calls(st.test if hasattr(st, 'test') else st.iter)
+                    block(st.body)
+                    block(st.orelse)
+                elif isinstance(st, ast.Try):
+                    block(st.body)
+                    for h in st.handlers:
+                        block(h.body)
+                    block(st.orelse)
+                    block(st.finalbody)
+                else:
+                    calls(st)
+        block(fn.body)
+        return out
+
+    def squeeze(ev):
+        res = []
+        for e in ev:
+            if res and res[-1] == e and e != ']' and e != 'setting[':
+                continue
+            res.append(e)
+        text = ' '.join(res).replace('setting[ ', 'setting[').replace(' ]', ']')
+        return text
     for name in ('parseStyle', 'parseString', 'parseFile', 'parseUrl'):
         fn = fns.get(name)
         if fn is None:
             rows.append(('entry-point', 'cssutils/parse.py:CSSParser.' + name, 'missing'))
             continue
-        kinds = []
-        for st in fn.body:
-            if isinstance(st, ast.Expr) and isinstance(st.value, ast.Constant):
-                continue
-            if isinstance(st, ast.With):
-                items = [ast.unparse(i.context_expr) for i in st.items]
-                kinds.append('with[%s]' % ','.join(items))
-            elif isinstance(st, ast.Return):
-                v = ast.unparse(st.value) if st.value is not None else ''
-                kinds.append('return-parseString' if v.startswith('self.parseString(') else 'return')
-            else:
-                src = ast.unparse(st)
-                if 'self.parseString(' in src:
-                    kinds.append('stmt-calls-parseString')
-                elif '_readUrl(' in src:
-                    kinds.append('stmt-readUrl')
-                elif 'open(' in src:
-                    kinds.append('stmt-open')
-                else:
-                    kinds.append('stmt')
-        rows.append(('entry-point', 'cssutils/parse.py:CSSParser.' + name, ' '.join(kinds)))
+        rows.append(('entry-point', 'cssutils/parse.py:CSSParser.' + name, squeeze(events(fn, 0, {name})) or 'nothing'))
     return rows
 
 
